@@ -48,6 +48,12 @@ def generate(rng, tier):
             recs = rand_records(rng, regime, nseg=rng.choice([1, 2, 3]), span=8,
                                 tracks=(["0", "1", "2", "x", 0, 1, "T0", "T1", "A"] if rng.random() < 0.6 else
                                         ["00", "01", "1", "0", "T00", "T01", "007", "2", 2, "T1", "-1", "+1", " 1"]))
+            if rng.random() < 0.4:
+                # several tracks on ONE segment, drawn from names that parse to small integers in more than one way
+                seg0 = gen.rand_segment(rng, regime, span=8, allow_empty=0.0)
+                pool = rng.choice([["0", "00", "01", "1", "2", "02", "007", "3"], ["T0", "T00", "T01", "T1", "0", "1", "T2"],
+                                   ["0", "1", "2", "3", "4", "5", "6", "7", "8", "9", "10", "11"], [0, 1, "0", "1", 2, "2"]])
+                recs = [[list(seg0), t_, rng.choice(["a", "b", 0])] for t_ in rng.sample(pool, rng.randrange(1, min(7, len(pool)) + 1))]
             s = rng.choice(recs)[0] if recs and rng.random() < 0.85 else gen.rand_segment(rng, regime, span=8)
             cases.append({"k": "newtrack", "regime": regime, "recs": recs, "s": s,
                           "cand": rng.choice([None, "0", "1", "x", 0, "fresh", "A", ""]),
